@@ -140,7 +140,7 @@ def run_shard(spec, tier, seed):
             # a dollar - with part of the refund applied to next year's estimated tax (and the same around the N.C. balance)
             ans = dict(p.answers)
             if 'w-2:0.box_2' in ans and '1040.24' in sol and '1040.33' in sol and (spec.get('directed') or (res.evaluations % 3 == 0)):
-                for delta, apply_ in ((0.5, 0.2), (0.01, 0.0), (0.99, 0.5), (1.0, 0.4), (0.0, 0.0), (-0.5, 0.0), (-0.01, 0.0), (37.25, 50.0)):
+                for delta, apply_ in ((0.5, 0.2), (0.01, 0.0), (0.99, 0.5), (1.0, 0.4), (0.0, 0.0), (-0.5, 0.0), (-0.01, 0.0), (37.25, 50.0), (37.75, 50.0), (0.6, 5.0), (1777.9, 1777.9), (1777.9, 1777.5)):
                     new_wh = float(ans['w-2:0.box_2'] or 0) + (sol['1040.24'] - sol['1040.33']) + delta
                     if new_wh < 0:
                         continue
